@@ -31,7 +31,10 @@ type c10Scn struct {
 	Seg    string   `json:"seg,omitempty"`
 	Fault  string   `json:"fault,omitempty"` // C11: "werr-on-cred": the write that carries the first secret fails
 	Idx    *int     `json:"idx,omitempty"`   // replay: the position the scenario had in its run (spellings and seeds derive from it)
-	idx    int
+	// History "reopen": after the admitted login the driver is closed - while the close is under way the device prints a late
+	// message and redraws its prompt - and opened again: the second open is an open like the first
+	History string `json:"history,omitempty"`
+	idx     int
 }
 
 const (
@@ -142,7 +145,13 @@ func c10Run(s *c10Scn, segName string, logEnc *json.Encoder, logMu *sync.Mutex) 
 	pipe := simdev.NewPipe(login, int64(s.idx))
 	pipe.Seg = faultSegs[segName]
 	login.OnEOF = func() { pipe.LoseAtEnd = "eof" }
-	ap := &simdev.AuthPipe{Pipe: pipe, SSH: &transport.SSHArgs{PrivateKeyPassPhrase: c10Passphrase}}
+	// an account without a password, a key without a passphrase: the answer to the question is the return key alone
+	pass, phrase := c10Pass, c10Passphrase
+	if s.idx%5 == 3 && s.Fault == "" {
+		pass, phrase = "", ""
+	}
+
+	ap := &simdev.AuthPipe{Pipe: pipe, SSH: &transport.SSHArgs{PrivateKeyPassPhrase: phrase}}
 	ap.AuthType = transport.InChannelAuthSSH
 
 	if s.Style == "telnet" {
@@ -160,7 +169,7 @@ func c10Run(s *c10Scn, segName string, logEnc *json.Encoder, logMu *sync.Mutex) 
 	chanLogMu := &sync.Mutex{}
 
 	d, err := generic.NewDriver("sim", options.WithCustomTransport(ap), options.WithReadDelay(30*time.Microsecond), options.WithTimeoutOps(opTimeout),
-		options.WithAuthUsername(c10User), options.WithAuthPassword(c10Pass), options.WithLogger(li), options.WithChannelLog(lockedWriter{chanLog, chanLogMu}))
+		options.WithAuthUsername(c10User), options.WithAuthPassword(pass), options.WithLogger(li), options.WithChannelLog(lockedWriter{chanLog, chanLogMu}))
 	if err != nil {
 		fail(&v, "C10:new-error", "%v", err)
 
@@ -213,7 +222,7 @@ func c10Run(s *c10Scn, segName string, logEnc *json.Encoder, logMu *sync.Mutex) 
 	closes := pipe.Closes
 	pipe.Unlock()
 
-	cred := map[string]string{"askuser": c10User, "askpass": c10Pass, "askpassphrase": c10Passphrase}
+	cred := map[string]string{"askuser": c10User, "askpass": pass, "askpassphrase": phrase}
 
 	if v.OK && s.Fault == "" {
 		var gotL, wantL []string
@@ -272,6 +281,68 @@ func c10Run(s *c10Scn, segName string, logEnc *json.Encoder, logMu *sync.Mutex) 
 		fin, pan = withWatchdog(5*time.Second, func() { p, perr = d.GetPrompt() })
 		if !fin || pan != nil || perr != nil || strings.TrimSpace(p) != "r1>" {
 			fail(&v, "C10:"+s.Style+":first-operation-after-login", "script [%s]: GetPrompt after login -> %q / %v", scriptS, p, perr)
+		}
+	}
+
+	if v.OK && s.Class == "ok" && s.History == "reopen" {
+		g := &gate{reached: map[string]bool{}, at: "C_wait", atFn: func() {
+			pipe.Inject([]byte("\r\n%LINK-3-UPDOWN: Interface Gi0/1, changed state to down\r\nr1>"))
+			pipe.WaitDrained(500 * time.Millisecond)
+			time.Sleep(3 * time.Millisecond)
+		}}
+		curGate.Store(g)
+
+		var e2 error
+
+		d.Channel.TimeoutOps = opTimeout
+		fin, pan = withWatchdog(8*time.Second, func() {
+			_ = d.Close()
+
+			pipe.Lock()
+			login.Log = nil
+			pipe.Unlock()
+
+			e2 = d.Open()
+		})
+
+		curGate.Store((*gate)(nil))
+
+		pipe.Lock()
+		recv2 := append([]simdev.Recv(nil), login.Log...)
+		pipe.Unlock()
+
+		var gotL, wantL []string
+
+		for _, r := range recv2 {
+			gotL = append(gotL, r.State+"="+r.Line)
+		}
+
+		for _, c := range s.Sent {
+			wantL = append(wantL, c+"="+cred[c])
+		}
+
+		switch {
+		case !fin || pan != nil:
+			fail(&v, "C10:"+s.Style+":reopen:hang-or-panic", "script [%s]: Close and Open again: returned=%v panic=%v", scriptS, fin, pan)
+		case !g.atFired:
+			v.OK, v.Sig, v.Detail = false, "TOOL", "Close never reached the yield point at which the device's late message is released"
+		case errClass(e2) != "ok":
+			fail(&v, "C10:"+s.Style+":reopen:outcome", "script [%s]: the second Open on the same driver -> %v, the device admits us exactly as the first time", scriptS, e2)
+		case strings.Join(gotL, "|") != strings.Join(wantL, "|"):
+			fail(&v, "C10:"+s.Style+":reopen:device-log", "script [%s]: during the second Open the device received %q, contract says %q (a late message and a redrawn prompt had arrived while the first session was being closed)", scriptS, gotL, wantL)
+		}
+
+		if v.OK {
+			d.Channel.TimeoutOps = 2 * time.Second
+
+			var p string
+
+			var perr error
+
+			fin, pan = withWatchdog(5*time.Second, func() { p, perr = d.GetPrompt() })
+			if !fin || pan != nil || perr != nil || strings.TrimSpace(p) != "r1>" {
+				fail(&v, "C10:"+s.Style+":reopen:first-operation-after-login", "script [%s]: GetPrompt after the second login -> %q / %v", scriptS, p, perr)
+			}
 		}
 	}
 
@@ -369,7 +440,20 @@ func c10(args []string) error {
 
 	var jobs []job
 
+	var histories []job
+
 	for _, s := range scns {
+		if s.History != "" {
+			seg := s.Seg
+			if seg == "" {
+				seg = segs[s.idx%3]
+			}
+
+			histories = append(histories, job{s, seg})
+
+			continue
+		}
+
 		if s.Seg != "" {
 			jobs = append(jobs, job{s, s.Seg})
 
@@ -384,6 +468,11 @@ func c10(args []string) error {
 	}
 
 	parallel(len(jobs), 10, func(i int) { emit(c10Run(jobs[i].s, jobs[i].seg, logEnc, logMu)) })
+
+	// histories use the library's yield points, which are process-wide: one at a time, after everything else
+	for _, j := range histories {
+		emit(c10Run(j.s, j.seg, logEnc, logMu))
+	}
 
 	_ = util.ErrAuthError
 
